@@ -552,13 +552,14 @@ V({
 # -------------------------------------------------------------------------- V20
 V({
     "id": "V20",
-    "title": "slg_merge_answer: SolveState::merge_answer_into_strand (chalk-engine/src/logic.rs)",
+    "title": "slg_merge_answer: SolveState::{merge_answer_into_strand, on_positive_cycle} (chalk-engine/src/logic.rs), Table::enqueue_strand",
     "template": "v20_merge_answer.rs",
     "assumptions": [
         "V20: Tables / Table / Stack are abstract (views: table at an index, a table's strand queue and stored answers, the table on top of the stack); Table::enqueue_strand appends to the queue and leaves goal, answer mode and answers alone; the custom Index/IndexMut impls have no precondition (in-range is the callers' invariant)",
         "V20: unwind_stack only appends caller strands to queues; flounder_subgoal, apply_answer_subst, map_from_canonical and canonicalize_strand_from are havoc on their outputs (canonicalization is an uninterpreted function of the inference table and the strand)",
         "V20: preconditions taken from the call sites and from the function's own panics: a subgoal is selected and in range; a negative subgoal's answer has no delayed subgoals; AnswerIndex does not overflow",
         "V20: a change that moves the re-enqueue decision into a new helper function makes the unit UNDECIDED (unknown callee), not a violation",
+        "V20: on_positive_cycle: Minimums (two clock values) is modelled with its fields and havoc methods - nothing is stated about the cycle minimums, only that the strand is handed back to the queue of the table being evaluated and nothing else changes; StackEntry without its active_strand field",
     ],
     "trusted": ["chalk-engine Tables / Table / Stack (abstract)", "chalk-solve InferenceTable::canonicalize, apply_answer_subst"],
 })
@@ -602,6 +603,7 @@ V({
         "V23: ghost state: the abstract SearchGraph carries a history of iterations; SolverStuff::solve_iteration (havoc: it calls back into solve_goal) is ASSUMED to append what it ran against, what it produced, its minimums and the stack's cycle flags, to leave the goal's own node in place and the stack as high as it was",
         "V23: SearchGraph / Stack are abstract (views: node sequence, goal lookup, cycle flags); rollback_to truncates the node sequence; custom Index/IndexMut impls have no precondition; std::mem::replace per its documentation",
         "V23: partial correctness only (exec_allows_no_decreases_clause): termination of the fixed-point loop is not claimed",
+        "V23: clause G (nothing above the head's node is left when the loop stops on a changed answer) is stated over the mechanism the code has - the node sequence of the search graph; a repair of a different shape that keeps those nodes but marks them as not cacheable would be reported although correct (none exists in the tree); iterating until the answer is stable satisfies the clause vacuously",
         "V23: `==` / `!=` on answers (V: PartialEq) decide structural equality (assumed; derived PartialEq on Fallible<Solution<I>>); the template's impl header carries the bound `V: PartialEq` on every tree",
         "V23: in the prelude's SolverStuff trait the callback type of solve_iteration is a named type parameter (with `impl Fn() -> bool + Clone` in a method of this generic trait the Verus front end does not terminate); the extracted function is unchanged",
     ],
@@ -656,6 +658,7 @@ V({
         "V28: nodes(t) (type constructors of t, bound unknowns resolved) is uninterpreted; its two defining equations are the assumed contract of InferenceTable::normalize_ty_shallow (bound unknown: nodes of its value; otherwise 1 + nodes of the components)",
         "V28: the generic visit driver (Ty::visit_with / super_visit_with, which call back into visit_ty for every component) is havoc under the induction hypothesis: visit_with(t) behaves like visit_ty(t), super_visit_with(t) like visit_ty on each component in turn at the visitor's current (non-zero) depth",
         "V28: counters do not overflow (precondition); std::cmp::max per its documentation; needs_truncation itself (generic over TypeVisitable) is not extracted",
+        "V28: TyKind is extracted from chalk-ir with opaque payload types; Ty::kind is assumed to return the type's kind, and a type whose kind carries no argument (Scalar, Str, Never, Foreign, Error, Placeholder, BoundVar, InferenceVar) is assumed to have no components - used only by a visit_ty that inspects the kind before descending (the tree's does not)",
     ],
     "trusted": ["chalk-ir visit driver", "InferenceTable::normalize_ty_shallow"],
 })
